@@ -378,6 +378,123 @@ func c18Explore(res *Result, raw json.RawMessage, job *Job) {
 				}
 			}
 		}
+	case "evict":
+		// Admission inside the eviction loop (policy level): every small layout of the three queues (weights, estimates),
+		// the maximum lowered to every small value, evictNodes run on the real policy. Rule: a resident of the main
+		// space (probation/protected at the start) is displaced only (a) by a distinct window-origin entry whose estimate
+		// is strictly greater (each such entry justifies one displacement), or (b) when no window-origin entry with a
+		// positive weight is left undecided (all were evicted or have won). Window-origin entries may be evicted freely
+		// (they lost, or are oversized). Whether SOME assignment of winners exists is decided by a small search.
+		type lay struct {
+			q      string
+			w      uint32
+			f      int
+			origin bool
+		}
+		weights := []uint32{1, 2, 7}
+		freqs := []int{0, 1, 6}
+		var layouts [][]otter.VerifEvictNode
+		var gen func(pos int, cur []otter.VerifEvictNode)
+		shape := [][3]int{{1, 1, 0}, {2, 1, 0}, {1, 2, 0}, {2, 2, 0}, {1, 1, 1}, {2, 1, 1}, {3, 1, 0}, {1, 0, 1}, {2, 2, 1}}
+		if p.MaxLen > 0 {
+			shape = shape[:p.MaxLen]
+		}
+		for _, sh := range shape {
+			var queues []string
+			for i := 0; i < sh[0]; i++ {
+				queues = append(queues, "window")
+			}
+			for i := 0; i < sh[1]; i++ {
+				queues = append(queues, "probation")
+			}
+			for i := 0; i < sh[2]; i++ {
+				queues = append(queues, "protected")
+			}
+			gen = func(pos int, cur []otter.VerifEvictNode) {
+				if pos == len(queues) {
+					layouts = append(layouts, append([]otter.VerifEvictNode(nil), cur...))
+					return
+				}
+				for _, w := range weights {
+					for _, f := range freqs {
+						gen(pos+1, append(cur, otter.VerifEvictNode{Key: pos + 1, Weight: w, Freq: f, Queue: queues[pos]}))
+					}
+				}
+			}
+			gen(0, nil)
+		}
+		for li, nodes := range layouts {
+			if job.Shards > 1 && li%job.Shards != job.Shard {
+				continue
+			}
+			if time.Now().After(deadline) {
+				timedOut = true
+				return
+			}
+			for _, newMax := range []uint64{1, 2, 3, 5, 8} {
+				vdet.Reset()
+				// every key in its own sketch block so that estimates are independent
+				vdet.HashFn = func(seed uint64, key any) uint64 { return uint64(key.(int)+1) * 0x9e3779b97f4a7c15 }
+				ev, fr, surv, ok := otter.VerifEvictLayout(100, newMax, nodes)
+				if !ok {
+					res.Counters["hook-unavailable"]++
+					return
+				}
+				res.Executions++
+				res.Steps += int64(len(ev))
+				Progress.Add(1)
+				ops := []string{fmt.Sprintf("layout %+v, maximum 100 -> %d: evicted %+v, survivors %v", nodes, newMax, ev, surv)}
+				origin := map[int]bool{}
+				weight := map[int]uint32{}
+				for _, n := range nodes {
+					origin[n.Key] = n.Queue == "window"
+					weight[n.Key] = n.Weight
+				}
+				// undecided window-origin entries that can take part in a comparison
+				var u0 []int
+				for _, n := range nodes {
+					if origin[n.Key] && n.Weight > 0 {
+						u0 = append(u0, n.Key)
+					}
+				}
+				var search func(i int, u []int) bool
+				search = func(i int, u []int) bool {
+					if i == len(ev) {
+						return true
+					}
+					k := ev[i].Key
+					without := func(x int) []int {
+						var out []int
+						for _, y := range u {
+							if y != x {
+								out = append(out, y)
+							}
+						}
+						return out
+					}
+					if origin[k] {
+						return search(i+1, without(k))
+					}
+					if len(u) == 0 {
+						return search(i+1, u)
+					}
+					for _, c := range u {
+						if fr[c] > fr[k] && search(i+1, without(c)) {
+							return true
+						}
+					}
+					return false
+				}
+				if len(ev) > 0 {
+					res.Counters["evictions-judged"]++
+				}
+				if !search(0, u0) {
+					fail("displaced-without-higher-estimate", "evictNodes", ops, "no assignment of winners explains the evictions: a main-space resident was displaced while a window-origin entry with a lower or equal estimate was still undecided (estimates %v)", fr)
+				}
+				// the bound itself and the zero-weight rule are C04's; here only the admission order is judged
+				states[fmt.Sprint(nodes, newMax)] = struct{}{}
+			}
+		}
 	case "admit":
 		// every (candidate, victim) estimate pair and a set of random answers
 		rands := []uint32{0, 1, 127, 128, 255, 256, 0x7fffffff, 0xffffff80, 0xffffffff}
